@@ -4,6 +4,7 @@
    input : [linear; K; tbin_m; tbin_k; delta_m; delta_k;
             na; (m,k)*na; nb; (m,k)*nb; nq; (m,k)*nq]
            K >= every k and K >= 0: the common tick is 2^-K s
+           | [8; linear; K; n; tbin_m; tbin_k; na; ...; nb; ...; nq; ...]   (whole function, histogram length n)
            | [7; n; x_0 .. x_(n-1)]   (parabolic_max on an integer-valued 1-D array)
    output: [0]                                   a polyfit call was singular
          | 1 :: enc(ib after first pass) ++ enc(final ib) ++ [frag1; frag2]
@@ -63,6 +64,42 @@ Definition frag2 (eps thr : Q) (f : a2b) (tsa tsb : list Q) (ib1 : list Z) : boo
 
 Definition run (inp : list Z) : list Z :=
   match inp with
+  | 8 :: lin :: K :: n :: tm :: tk_ :: rest =>
+      (* the whole function, delta_t computed by the model from histogram length n:
+         [2] IndexError | 0 :: floor(delta*10^15) :: cstat  (singular fit)
+         | 1 :: floor(delta*10^15) :: cstat ++ (as below);  cstat = [tie; argmax; max; sum] of the correlation.  tie = the correlation maximum is attained
+         at more than one lag (an FFT-based correlate may then pick either) *)
+      let linear := lin =? 1 in
+      let den := Z.to_pos (2 ^ K) in
+      let tbin := tk K tm tk_ in
+      let '(tsa, r1) := dec_tlist K rest in
+      let '(tsb, r2) := dec_tlist K r1 in
+      let '(qs, _) := dec_tlist K r2 in
+      let qa := map (tq den) tsa in
+      let qb := map (tq den) tsb in
+      let epsz := 2 ^ K / 2 ^ 30 in
+      let tmin := lmin (tsa ++ tsb) in
+      let v := xcorr n (occupied tbin tmin tsa) (occupied tbin tmin tsb) in
+      let mx := fold_left Z.max v 0 in
+      let tie := enc_bool (1 <? Z.of_nat (length (filter (fun c => c =? mx) v))) in
+      let cstat := [tie; argmax_first (map inject_Z v); mx; fold_left Z.add v 0] in
+      match coarse_delta n den tbin tsa tsb with
+      | None => [2]
+      | Some d =>
+          let k := Zpos (Qden d) in
+          match sync_rest linear den tbin tsa tsb (first_pass_q den tbin d tsa tsb) with
+          | None => 0 :: fixq (10 ^ 15) d :: cstat
+          | Some r =>
+              let f1 := match interp_fcn linear qa (sr_ib1 r) qb with
+                        | Some (f, _) => f | None => FLin 0 0 end in
+              1 :: fixq (10 ^ 15) d :: cstat ++ enc_zlist (sr_ib1 r) ++ enc_zlist (sr_ib r)
+                ++ [enc_bool (frag1 (epsz * k) (tbin * k) (Qnum d * Zpos den)
+                                    (map (Z.mul k) tsa) (map (Z.mul k) tsb));
+                    enc_bool (frag2 (Qmake 1 (Z.to_pos (2 ^ 30))) (tq den tbin) f1 qa qb (sr_ib1 r))]
+                ++ [fixq (10 ^ 18) (sr_slope r)]
+                ++ enc_zlist (map (fun q => fixq (10 ^ 12) (apply_a2b (sr_fcn r) (tq den q))) qs)
+          end
+      end
   | 7 :: n :: xs =>
       (* parabolic_max on an integer-valued array: [floor(ipeak*10^12); floor(maxi*10^12)] *)
       let '(ip, mx) := parabolic_max (map inject_Z (firstn (Z.to_nat n) xs)) in
